@@ -561,10 +561,11 @@ func (ex *Exec) writtenIndices(term, base string, snapN int) ([]string, bool, bo
 		if ex.allocSyms[parts[2]] && !ex.loopInvariantTerm(parts[2], snapN) {
 			return rest, true, true
 		}
-		if !ex.loopInvariantTerm(parts[2], snapN) {
+		exp, inv := ex.expandInvariant(parts[2], snapN, 0)
+		if !inv {
 			return nil, false, false
 		}
-		return append(rest, parts[2]), fr, true
+		return append(rest, exp), fr, true
 	case "ite":
 		a, f1, ok1 := ex.writtenIndices(parts[2], base, snapN)
 		b, f2, ok2 := ex.writtenIndices(parts[3], base, snapN)
@@ -576,16 +577,38 @@ func (ex *Exec) writtenIndices(term, base string, snapN int) ([]string, bool, bo
 	return nil, false, false
 }
 
-var bangNum = regexp.MustCompile(`!(\d+)`)
+var bangSym = regexp.MustCompile(`[A-Za-z_][A-Za-z0-9_$.]*!(\d+)`)
+
+// expandInvariant rewrites term so that it mentions no symbol created after counter snapN, by unfolding definitions
+// made after snapN. ok is false when the term depends on a value that is genuinely new (a fresh constant).
+func (ex *Exec) expandInvariant(t string, snapN int, depth int) (string, bool) {
+	if depth > 40 {
+		return "", false
+	}
+	ok := true
+	out := bangSym.ReplaceAllStringFunc(t, func(sym string) string {
+		m := bangSym.FindStringSubmatch(sym)
+		n, _ := strconv.Atoi(m[1])
+		if n <= snapN {
+			return sym
+		}
+		d, isDef := ex.defs[sym]
+		if !isDef {
+			ok = false
+			return sym
+		}
+		e, ok2 := ex.expandInvariant(d, snapN, depth+1)
+		if !ok2 {
+			ok = false
+		}
+		return e
+	})
+	return out, ok
+}
 
 func (ex *Exec) loopInvariantTerm(t string, snapN int) bool {
-	for _, m := range bangNum.FindAllStringSubmatch(t, -1) {
-		n, _ := strconv.Atoi(m[1])
-		if n > snapN {
-			return false
-		}
-	}
-	return true
+	_, ok := ex.expandInvariant(t, snapN, 0)
+	return ok
 }
 
 // token0: first valid source position of a block.
